@@ -10,7 +10,14 @@ KeyValueStore with several cursors held open across writes, rollover+flush (drop
 a cursor reads), compactions / moves / GCs (retiring SSTs a cursor reads) and trash clean-up, in
 lock step on the extracted model (`mx_snap`): every cursor observation (key, timestamp, value),
 every error, and the contents of sst/ and trash/ after every event; plus the direct oracle: a
-Python reference cursor over the key->value map frozen when the scan was opened."""
+Python reference cursor over the key->value map frozen when the scan was opened.  Also in the
+histories: scans of the TREE itself (LsmTree::range_scan; oracle = the flushed contents at open),
+held across the same events; cursor calls with a write PLACED INSIDE them (the harness writes from
+the skip list's hook at a chosen hook event of the call; sweeps put a write of the very key prev()
+is stepping onto at every offset 0..59 from the end of the call).  Two concurrent stages: writers
+against scanners (atomic batches, stable walks), and many scanner threads opening the same small
+ssts lazily at the same moment while writers hammer the keys under the cursors (no panic, no
+error, no poisoned lock, the process survives, identical walks)."""
 import json
 import os
 import select
@@ -22,7 +29,7 @@ import vlib
 
 META = {
     "category": "proof",
-    "text": "Coq theorems (Snap/Props_C07.v) over an executable model of the scan cursor and of the lifetimes of what it reads (skiplist nodes, versions, SST files, open handles): in every interleaving of completed writes, rollovers, flushes, installs of new versions (compactions, moves, GCs), trash clean-up, cache evictions and cursor calls - forward, backward, seeks, several cursors - no cursor call touches freed skiplist nodes or a missing file, and each cursor keeps behaving as the reference cursor over the contents at scan-open time - writes into the very memtable it iterates included, whole or in their parts (sequence number assigned / entries inserted one by one / published; a scan may be opened between insert and publish) (C07_cursor_snapshot_stable: late-tolerant children, merge and pruning cursor), at every state reached by an accepted history with nothing evaluated on that state (C07_cursor_snapshot_stable_accepted: the hypotheses about the store at scan-open are invariants); the pre-repair lifetime rules (iterator not owning the nodes, cursor not owning its VersionRef) are models too and are refuted. The model is tied to lsmtk by lock-step replay of single-stepped real histories with cursors held across events (observations, errors, sst/ and trash/ contents), with an allocation registry on every skiplist node dereference and a count of freed nodes compared with the model's memtable lifetimes, against a Python reference cursor over the map (key -> sequence number, value) frozen at scan-open, with the model's acceptance predicate acc_ev evaluated on every event of the real histories (real flushes and compaction outputs are accepted), and by a concurrent stage (writer threads against scanning threads) for the one assumption the atomic-event model makes about the read timestamp.",
+    "text": "Coq theorems (Snap/Props_C07.v) over an executable model of the scan cursor and of the lifetimes of what it reads (skiplist nodes, versions, SST files, open handles): in every interleaving of completed writes, rollovers, flushes, installs of new versions (compactions, moves, GCs), trash clean-up, cache evictions and cursor calls - forward, backward, seeks, several cursors - no cursor call touches freed skiplist nodes or a missing file, and each cursor keeps behaving as the reference cursor over the contents at scan-open time - writes into the very memtable it iterates included, whole or in their parts (sequence number assigned / entries inserted one by one / published; a scan may be opened between insert and publish) (C07_cursor_snapshot_stable: late-tolerant children, merge and pruning cursor), at every state reached by an accepted history with nothing evaluated on that state (C07_cursor_snapshot_stable_accepted: the hypotheses about the store at scan-open are invariants); the pre-repair lifetime rules (iterator not owning the nodes, cursor not owning its VersionRef) are models too and are refuted. The model is tied to lsmtk by lock-step replay of single-stepped real histories with cursors held across events (observations, errors, sst/ and trash/ contents), with an allocation registry on every skiplist node dereference and a count of freed nodes compared with the model's memtable lifetimes, against a Python reference cursor over the map (key -> sequence number, value) frozen at scan-open, with the model's acceptance predicate acc_ev evaluated on every event of the real histories (real flushes and compaction outputs are accepted), and by a concurrent stage (writer threads against scanning threads) for the one assumption the atomic-event model makes about the read timestamp. Where the atomic-event model is blind, the check is direct: scans of the tree itself (LsmTree::range_scan) held across compactions against the flushed contents at open; writes placed INSIDE a cursor call (from the skip list's hook, at every offset from the end of a prev() onto the written key); a second concurrent stage in which many threads open the same small ssts lazily at the same moment (file manager) while writers overwrite the keys under backward-walking cursors.",
     "note": "Trusted: Coq kernel; extraction (ExtrOcamlBasic) + ocaml/snap driver; harness c07 + cfg(blue_verif) hooks (single-step compaction, flush handshake, dump, skipfree node-lifetime hook); this module. Modelled, not verified here: the combinators themselves (area Cursor, C11), an SstCursor as the table of its entries (C10), the skiplist's internals (C17: the iterator is modelled as successor/predecessor in the sorted node list), events as atomic steps (a write is visible all at once: C06), storage errors other than a missing file, the file manager's open-file limit. Atomic events also hide a LEAK race seen by an audit in LsmTree::explicit_unref (two holders of one Arc<Version> dropping concurrently can both read strong_count = 2 and both return, so the version dies without release_sst and its files stay in sst/ until the next open's cleanup_orphans): a file kept too long, not removed too early, hence not a violation of C07 (or C08).",
 }
 
@@ -53,6 +60,11 @@ CONC_SETS = [
     ("big-batches", ["--memtable-size-bytes", "400000000"], (8, 20000, 3, 2)),
     ("many-small-writers", ["--memtable-size-bytes", "4000000"], (30, 2000, 4, 2)),
 ]
+
+# the second concurrent stage: many small ssts below L0, every scan opens them lazily and at the same time as the others
+CONC2_OPTS = ["--memtable-size-bytes", "100000000", "--l0-write-stall-threshold-files", "100000", "--l0-write-stall-threshold-bytes", "100000000000",
+              "--sst-cache-bytes", "0", "--sst-target-file-size", "300", "--sst-minimum-file-size", "100", "--sst-target-block-size", "96"]
+CONC2_PARAMS = [(12, 20, 600, 2), (16, 12, 400, 3), (8, 30, 900, 1)]      # scanner threads, rounds, keys, writer threads
 
 # model switches: cf_iter_owns cf_holds_ver cf_cache  (the repaired code, cache off as in BASE_OPTS)
 MODEL_FLAGS = os.environ.get("C07_MODEL_FLAGS", "1 1 0")
@@ -232,9 +244,14 @@ class Run:
                       "verify": 0, "steps": 0, "obs": 0, "fwd": 0, "back": 0, "seek": 0, "first_last": 0,
                       "held_across": {"nothing": 0, "write": 0, "flush": 0, "flush_of_read_memtable": 0, "install": 0,
                                       "install_retiring_read_sst": 0, "rmtrash": 0, "other_cursor": 0},
-                      "nonempty_obs": 0, "max_open_cursors": 0, "ls_compared": 0, "trash_seen": 0}
+                      "nonempty_obs": 0, "max_open_cursors": 0, "ls_compared": 0, "trash_seen": 0,
+                      "tree_scans_opened": 0, "tree_scan_obs": 0, "tree_scan_obs_after_install_retiring_read_sst": 0,
+                      "placed_write_calls": 0, "placed_writes_done": 0, "placed_writes_on_the_key_stepped_onto": 0,
+                      "placed_writes_in_prev": 0, "placed_write_offsets_from_end": {}}
         self.dead = False
         self.frees_off = False
+        self.ls_off = False   # a tree-level scan holds a version the model does not know about: sst/ and trash/ not compared after it
+        self.flushed = {}     # key -> (sequence number, value) of what has reached the tree (the contents a tree-level scan shows)
         self.model = Model(mx_exe)
         self.sess = Session(exe, self.root, opts, prefix, errlog)
         self.events.append(("open-store", self.sess.open_line))
@@ -340,6 +357,8 @@ class Run:
         return "/".join(";".join(self.file_str(n) for n in lv) for lv in levels)
 
     def compare_ls(self, where):
+        if self.ls_off:
+            return
         out = self.scmd("ls")[0]
         if not out.startswith("LS "):
             self.problem("error", what="ls failed", out=out)
@@ -406,6 +425,7 @@ class Run:
             self.problem("corr", what="flush: file contents differ from the model's memtable", impl=want[:300], model=m[:300], r=r)
         self.levels = levels
         self.mem_nonempty = False
+        self.flushed = dict(self.spec)
         self.stats["flush"] += 1
         self.note("flush", flush_of_read_memtable=lambda c: c["mem_live"])
         for c in self.cursors.values():
@@ -486,12 +506,31 @@ class Run:
             self.problem("corr", what="model: open differs, or the stability theorem's hypotheses do not hold here", impl=out, model=m)
         self.note("other_cursor")
         self.cursors[cid] = {"ref": RefCursor(self.spec, parse_bound(lo), parse_bound(hi)), "since": set(), "dead": False,
-                             "files": set(n for lv in self.levels for n in lv), "mem_live": True, "lo": lo, "hi": hi}
+                             "files": set(n for lv in self.levels for n in lv), "mem_live": True, "lo": lo, "hi": hi,
+                             "tree": False, "hist": [], "retired": False}
         self.stats["open"] += 1
         self.stats["max_open_cursors"] = max(self.stats["max_open_cursors"], len(self.cursors))
         self.compare_ls("open")
         if not self.frees_off:
             self.check_frees("after opening a scan")
+
+    def topen(self, cid, lo, hi):
+        """a scan of the TREE (LsmTree::range_scan, the ingest-only front end): the newest version of every key that has
+        reached the tree (flushed), tombstones screened; it holds the version it was opened on, hence its files"""
+        if cid in self.cursors:
+            return
+        out = self.scmd("topen %d %s %s" % (cid, lo, hi))[0]
+        self.events.append(("topen %d %s %s" % (cid, lo, hi), out))
+        if not out.startswith("OPENED"):
+            self.problem("read", what="opening a scan of the tree failed", impl=out)
+            return
+        self.ls_off = True
+        self.note("other_cursor")
+        self.cursors[cid] = {"ref": RefCursor(self.flushed, parse_bound(lo), parse_bound(hi)), "since": set(), "dead": False,
+                             "files": set(n for lv in self.levels for n in lv), "mem_live": False, "lo": lo, "hi": hi,
+                             "tree": True, "hist": [], "retired": False}
+        self.stats["tree_scans_opened"] += 1
+        self.stats["max_open_cursors"] = max(self.stats["max_open_cursors"], len(self.cursors))
 
     def step(self, cid, prog):
         c = self.cursors.get(cid)
@@ -499,10 +538,81 @@ class Run:
             return
         out = self.scmd("step %d %s" % (cid, ",".join(prog)))[0]
         self.events.append(("step %d %s" % (cid, ",".join(prog)), out))
-        m = self.model.cmd("S %d %s" % (cid, ",".join(prog)))
+        m = None if c["tree"] else self.model.cmd("S %d %s" % (cid, ",".join(prog)))
+        self.judge(cid, c, prog, out, m)
+
+    def stepinj(self, cid, op, off, key, val):
+        """one cursor call with a write PLACED INSIDE it: the harness performs put/del(key) from the skip list's hook at the
+        K-th hook event of the call (events = atomic operations on successor cells, node dereferences), i.e. between two
+        internal steps of the call.  off counts from the END of the call: K = T - off where T is the number of events of
+        the same call measured on a twin cursor (opened now on the same bounds, driven through the same calls, dropped).
+        For the oracle and the model the write simply completed before the call returned; the cursor must not see it"""
+        c = self.cursors.get(cid)
+        if c is None or c["dead"]:
+            return
+        if c["tree"]:
+            return self.step(cid, [op])
+        ref = c["ref"]
+        if key == "@":
+            # the key the reference cursor is about to step onto (else its neighbour, else any key)
+            i = ref.i + (1 if op[0] == "N" else -1)
+            if op[0] in "NP" and 0 <= i < len(ref.l):
+                key = ref.l[i][0]
+                self.stats["placed_writes_on_the_key_stepped_onto"] += 1
+            elif ref.l:
+                key = ref.l[min(max(ref.i, 0), len(ref.l) - 1)][0]
+            else:
+                key = b"k1"
+        total = None
+        if len(c["hist"]) <= 96:
+            twin = "9%d" % cid
+            o = self.scmd("open %s %s %s" % (twin, c["lo"], c["hi"]))[0]
+            if o.startswith("OPENED"):
+                if c["hist"]:
+                    o = self.scmd("step %s %s" % (twin, ",".join(c["hist"])))[0]
+                o = self.scmd("stepinj %s %s 1000000000 00 ~" % (twin, op))[0]
+                if "INJ:" in o:
+                    total = int(o.split("INJ:")[1].split(":")[1])
+                if not o.startswith("STEP"):
+                    self.problem("read", what="a cursor call panicked or the store stopped (twin cursor of a placed write)", impl=o, cursor=cid)
+                self.scmd("close %s" % twin)
+        k_at = max(1, total - off) if total is not None else max(1, 60 - off)
+        line = "stepinj %d %s %d %s %s" % (cid, op, k_at, hx(key), "~" if val is None else hx(val))
+        out = self.scmd(line)[0]
+        self.events.append((line + "   # call has %s hook events, write placed %d from the end" % (total, off), out))
+        self.stats["placed_write_calls"] += 1
+        done = 0
+        if " INJ:" in out:
+            out, tail = out.rsplit(" INJ:", 1)
+            done = int(tail.split(":")[0])
+        if done == 2:
+            self.problem("error", what="the placed write returned an error", op=line)
+        if done == 1:
+            mw = self.model.cmd("W %s=%s" % (hx(key), "~" if val is None else hx(val)))
+            if mw != "W ok":
+                self.problem("corr", what="model rejected the placed write", op=line, model=mw)
+            if not self.dead:
+                ts = int(self.scmd("state")[0].split()[1])
+                self.spec[key] = (ts, val)
+            self.mem_nonempty = True
+            self.stats["write"] += 1
+            self.stats["placed_writes_done"] += 1
+            if op[0] == "P":
+                self.stats["placed_writes_in_prev"] += 1
+            d = self.stats["placed_write_offsets_from_end"]
+            d[str(off)] = d.get(str(off), 0) + 1
+            for c2 in self.cursors.values():
+                c2["since"].add("write")
+        m = self.model.cmd("S %d %s" % (cid, op))
+        if out.startswith("PANIC"):
+            out = "PANIC inside the cursor call (a write of key %s was placed inside it)" % hx(key)
+        self.judge(cid, c, [op], out, m)
+
+    def judge(self, cid, c, prog, out, m):
         toks = out.split(" ")
         if toks[0] != "STEP":
-            self.problem("read", what="a cursor call panicked or the store stopped", impl=out, model=m, cursor=cid, held_across=sorted(c["since"]))
+            self.problem("read", what="a cursor call panicked or the store stopped", impl=out, model=m, cursor=cid, held_across=sorted(c["since"]),
+                         tree_level_scan=c["tree"])
             c["dead"] = True
             if toks[0] in ("HANG", "EOF"):
                 self.dead = True
@@ -511,6 +621,7 @@ class Run:
         want = []
         for op in prog:
             want.append(c["ref"].step(op))
+        c["hist"].extend(prog)
         h = self.stats["held_across"]
         since = sorted(c["since"])
         if c["since"]:
@@ -518,6 +629,8 @@ class Run:
                 h[k] = h.get(k, 0) + 1
         else:
             h["nothing"] += 1
+        if "install_retiring_read_sst" in c["since"]:
+            c["retired"] = True
         c["since"] = set()
         self.stats["steps"] += 1
         bad = None
@@ -537,15 +650,19 @@ class Run:
                 got = (unhx(kt.split("@")[0]), int(kt.split("@")[1]), unhx(v) if v != "~" else None)
                 self.stats["nonempty_obs"] += 1
             self.stats["obs"] += 1
+            if c["tree"]:
+                self.stats["tree_scan_obs"] += 1
+                if c["retired"]:
+                    self.stats["tree_scan_obs_after_install_retiring_read_sst"] += 1
             if got != want[i]:
                 bad = "call %d (%s): got %s, the contents at scan-open time give %s" % (i, op, o, "." if want[i] is None else "%s@%d=%s" % (hx(want[i][0]), want[i][1], hx(want[i][2])))
                 break
         if bad is None and len(obs) > len(prog):
             bad = "extra output: " + " ".join(obs[len(prog):])      # UAF:<n> from the allocation registry
         if bad:
-            self.problem("read", what=bad, impl=out, model=m, cursor=cid, bounds=[c["lo"], c["hi"]], held_across=since)
+            self.problem("read", what=bad, impl=out, model=m, cursor=cid, bounds=[c["lo"], c["hi"]], held_across=since, tree_level_scan=c["tree"])
             c["dead"] = True
-        elif m != "S " + " ".join(obs):
+        elif m is not None and m != "S " + " ".join(obs):
             self.problem("corr", what="model: cursor observations differ", impl=out, model=m, cursor=cid)
             c["dead"] = True
 
@@ -555,7 +672,7 @@ class Run:
             return
         out = self.scmd("close %d" % cid)[0]
         self.events.append(("close %d" % cid, out))
-        m = self.model.cmd("X %d" % cid)
+        m = "X ok" if c["tree"] else self.model.cmd("X %d" % cid)
         if out != "CLOSED 1":
             self.problem("read", what="dropping a cursor panicked or touched freed memory", impl=out)
         if m != "X ok" and not c["dead"]:
@@ -612,6 +729,10 @@ def run_history(exe, mx_exe, opts, ops, tag, prefix=None, errlog=None):
                 run.open(op[1], op[2], op[3])
             elif k == "step":
                 run.step(op[1], op[2])
+            elif k == "topen":
+                run.topen(op[1], op[2], op[3])
+            elif k == "stepinj":
+                run.stepinj(op[1], op[2], op[3], op[4], op[5])
             elif k == "close":
                 run.close(op[1])
             elif k == "rmtrash":
@@ -666,6 +787,53 @@ def run_conc(args):
         shutil.rmtree(root, ignore_errors=True)
 
 
+def run_conc2(args):
+    """K keys in many small ssts compacted below L0 (sst cache off, so that every scan opens the files through the file
+    manager), 12 hot keys also in the live memtable; W threads overwrite/delete the hot keys all the time; T scanner
+    threads, released together by a barrier R times, each open an unbounded scan and walk it three times
+    (backward/forward/backward or forward/backward/forward).  No call may panic or fail, the three walks must be the
+    same, and at most the 12 hot keys may be missing"""
+    exe, params, tag = args
+    root = fresh_root(tag)
+    res = {"params": list(params), "line": "", "scans": 0, "bad": 0, "what": None, "files": 0, "deep": 0}
+    sess = Session(exe, root, CONC2_OPTS)
+    try:
+        if sess.open_line != "OPEN ok":
+            res["what"] = "open failed: " + sess.open_line
+            res["bad"] = 1
+            return res
+        out = sess.cmd("conc2 %d %d %d %d" % tuple(params))[-1]
+        res["line"] = out[:600]
+        if not out.startswith("CONC2 "):
+            rc = None
+            try:
+                rc = sess.p.wait(timeout=5)
+            except Exception:
+                pass
+            res["what"] = ("the store process died, hung or aborted while scans were opening the same ssts concurrently (answer: %s, exit status %s; "
+                           "negative = killed by that signal, -6 = abort, e.g. a panic while panicking)" % (out[:200], rc))
+            res["bad"] = 1
+            return res
+        f = dict(t.split("=", 1) for t in out.split()[1:] if "=" in t)
+        res["scans"] = int(f["scans"])
+        res["files"], res["deep"] = int(f["files"]), int(f["deep"])
+        res["bad"] = int(f["unstable"]) + int(f["panics"]) + int(f["errors"])
+        if res["bad"]:
+            res["what"] = ("a scan panicked, returned an error (a poisoned lock is one), or its walks differed, while other threads were opening the same "
+                           "ssts / writing the keys it was stepping onto (panics=%s errors=%s unstable=%s of %s scans)" % (f["panics"], f["errors"], f["unstable"], f["scans"]))
+        return res
+    finally:
+        try:
+            sess.close()
+        except Exception:
+            pass
+        shutil.rmtree(root, ignore_errors=True)
+
+
+def run_conc_any(args):
+    return run_conc2(args[1:]) if args[0] == "conc2" else run_conc(args)
+
+
 def conc_jobs(exe, rng, reps):
     jobs = []
     for r in range(reps):
@@ -711,8 +879,10 @@ def gen_prog(rng, universe):
     return prog
 
 
-def gen_history(rng, n_ops, universe):
-    """('w', batch) ('flush',) ('compact', n) ('open', cid, lo, hi) ('step', cid, prog) ('close', cid) ('rmtrash',) ('verify',)"""
+def gen_history(rng, n_ops, universe, tree=False, placed=False):
+    """('w', batch) ('flush',) ('compact', n) ('open', cid, lo, hi) ('step', cid, prog) ('close', cid) ('rmtrash',) ('verify',)
+    tree: also ('topen', cid, lo, hi), scans of the tree itself; placed: also ('stepinj', cid, call, offset from the end of
+    the call, key or '@' = the key being stepped onto, value or None), a write placed inside a cursor call"""
     ops = []
     hot = [rng.choice(universe) for _ in range(4)]
     open_cursors = []
@@ -735,11 +905,15 @@ def gen_history(rng, n_ops, universe):
             ops.append(("compact", rng.choice([1, 2, 3, 8, 20, 40])))
         elif r < 66:
             if len(open_cursors) < 3:
-                ops.append(("open", next_cid, gen_bound(rng, universe, True), gen_bound(rng, universe, False)))
+                kind = "topen" if tree and rng.chance(1, 2) else "open"
+                ops.append((kind, next_cid, gen_bound(rng, universe, True), gen_bound(rng, universe, False)))
                 open_cursors.append(next_cid)
                 next_cid += 1
         elif r < 90:
-            if open_cursors:
+            if open_cursors and placed and rng.chance(1, 3):
+                ops.append(("stepinj", rng.choice(open_cursors), rng.choice(["P", "P", "P", "N"]), rng.below(40),
+                            "@" if rng.chance(3, 4) else rng.choice(universe), None if rng.chance(1, 4) else rng.bytes(rng.choice([0, 1, 3, 8]))))
+            elif open_cursors:
                 ops.append(("step", rng.choice(open_cursors), gen_prog(rng, universe)))
         elif r < 94:
             if open_cursors and rng.chance(2, 3):
@@ -753,11 +927,46 @@ def gen_history(rng, n_ops, universe):
     return ops
 
 
+def gen_sweep(rng, universe):
+    """a write of the very key a prev() (sometimes a next()) is stepping onto, placed at every offset 0..59 from the end of
+    the call in turn, each time on a fresh scan of a small store; between the rounds the store moves (flush, compaction)"""
+    ops = []
+    keys = sorted(universe[:3] + [k for k in universe[3:] if rng.chance(1, 2)])
+    for k in keys:
+        ops.append(("w", [(k, rng.bytes(rng.choice([1, 3, 8])))]))
+    if rng.chance(1, 2):
+        ops.append(("flush",))
+        for k in keys[:2]:
+            ops.append(("w", [(k, rng.bytes(2))]))
+    cid = 1
+    for off in range(60):
+        back = rng.below(len(keys))
+        call = "N" if rng.chance(1, 8) else "P"
+        # the key the call steps onto (all keys are live at this point)
+        key = keys[len(keys) - 1 - back] if call == "P" else keys[back]
+        val = None if rng.chance(1, 6) else rng.bytes(rng.choice([1, 2, 5]))
+        ops.append(("open", cid, "U", "U"))
+        ops.append(("step", cid, (["L"] + ["P"] * back) if call == "P" else (["F"] + ["N"] * back)))
+        ops.append(("stepinj", cid, call, off, "@", val))
+        ops.append(("step", cid, ["P", "N", "N"] if call == "P" else ["N", "P", "P"]))
+        ops.append(("close", cid))
+        if val is None:
+            ops.append(("w", [(key, rng.bytes(2))]))
+        cid += 1
+        if off % 15 == 14:
+            ops.append(("flush",))
+        if off % 30 == 29:
+            ops.append(("compact", 8))
+    return ops
+
+
 def ops_to_json(ops):
     out = []
     for op in ops:
         if op[0] == "w":
             out.append(["w", [[k.hex(), None if v is None else v.hex()] for k, v in op[1]]])
+        elif op[0] == "stepinj":
+            out.append(["stepinj", op[1], op[2], op[3], op[4] if op[4] == "@" else op[4].hex(), None if op[5] is None else op[5].hex()])
         else:
             out.append(list(op))
     return out
@@ -768,6 +977,8 @@ def ops_from_json(js):
     for op in js:
         if op[0] == "w":
             out.append(("w", [(bytes.fromhex(k), None if v is None else bytes.fromhex(v)) for k, v in op[1]]))
+        elif op[0] == "stepinj":
+            out.append(("stepinj", op[1], op[2], op[3], "@" if op[4] == "@" else bytes.fromhex(op[4]), None if op[5] is None else bytes.fromhex(op[5])))
         else:
             out.append(tuple(op))
     return out
@@ -835,9 +1046,16 @@ def run(chk):
     for i in range(n_hist):
         optname, opts = OPTION_SETS[i % len(OPTION_SETS)]
         universe = UNIVERSE[:rng.choice([6, 10, 20])]
-        ops = gen_history(rng.fork(), rng.choice([60, 120, 240] if quick else [60, 120, 240, 480]), universe)
+        # every 4th history also scans the tree itself, every 4th (another one) places writes inside cursor calls
+        ops = gen_history(rng.fork(), rng.choice([60, 120, 240] if quick else [60, 120, 240, 480]), universe,
+                          tree=(i % 4 == 1), placed=(i % 4 == 3))
         jobs.append((exe, mx, opts, ops, "c07h%d" % i, None, None))
         names.append(("h%d" % i, optname, ops))
+    for i in range(5 if quick else 40):
+        optname, opts = OPTION_SETS[i % len(OPTION_SETS)]
+        ops = gen_sweep(rng.fork(), UNIVERSE[11:11 + rng.choice([3, 5, 9])])
+        jobs.append((exe, mx, opts, ops, "c07s%d" % i, None, None))
+        names.append(("sweep%d" % i, optname, ops))
     results = [(n[0], n[1], n[2], r) for n, r in zip(names, run_many(jobs))]
 
     # thorough: the corpus and a sample of the histories again under valgrind (memcheck)
@@ -864,11 +1082,23 @@ def run(chk):
     # the concurrent stage (two sessions at a time: each one runs 5 to 8 threads)
     import multiprocessing
     cjobs = conc_jobs(exe, rng.fork(), 3 if quick else 25)
+    c2jobs = [("conc2", exe, CONC2_PARAMS[i % len(CONC2_PARAMS)], "c07cc%d" % i) for i in range(3 if quick else 24)]
     with multiprocessing.Pool(2) as pool:
-        cres = pool.map(run_conc, cjobs, chunksize=1)
+        allres = pool.map(run_conc_any, cjobs + c2jobs, chunksize=1)
+    cres, c2res = allres[:len(cjobs)], allres[len(cjobs):]
     conc = {"sessions": len(cres), "scans": sum(c["scans"] for c in cres), "sessions_with_failures": sum(1 for c in cres if c["bad"]),
             "sets": [n for n, _, _ in CONC_SETS],
             "rule": "per session one thread writes R batches of B keys (own key prefix and marker value per batch), S threads issue single puts all the time, C threads open a scan cursor on the batch about to complete (every 8th time: the one completed last) and walk it three times (backward/forward/backward or forward/backward/forward); oracle: every walk shows the batch entirely or not at all, the three walks of one cursor are identical, a batch whose write() had returned before the scan was opened is there"}
+    conc["second_stage"] = {"sessions": len(c2res), "scans": sum(c["scans"] for c in c2res), "sessions_with_failures": sum(1 for c in c2res if c["bad"]),
+                            "ssts_in_the_tree(min)": min([c["files"] for c in c2res] or [0]), "ssts_below_L0(min)": min([c["deep"] for c in c2res] or [0]),
+                            "params(scanner threads, rounds, keys, writer threads)": [list(p) for p in CONC2_PARAMS],
+                            "rule": "K keys in many small ssts compacted below L0, sst cache off (every scan opens the files lazily through the file manager), 12 hot keys also in the live memtable and overwritten/deleted by W writer threads all the time; T scanner threads released together by a barrier, R times, each open an unbounded scan and walk it backward/forward/backward or forward/backward/forward; oracle: no call panics or returns an error, the process survives, the three walks of one cursor are identical, at most the 12 hot keys are missing"}
+    c2reported = 0
+    for c in c2res:
+        if c["bad"] and c2reported < 2:
+            chk.violation("c07_conc2_%d.json" % c2reported, {"kind": "property", "what": c["what"], "conc2": {"params": c["params"]},
+                                                             "line": c["line"], "replay_cmd": "./bin/check C07 --replay <this file>  (re-runs the stage up to 10 times)"})
+            c2reported += 1
     creported = 0
     for c in cres:
         if c["bad"] and creported < 2:
@@ -887,7 +1117,7 @@ def run(chk):
             shapes.add(json.dumps(ops_to_json(ops))[:3000])
     chk.coverage.update({
         "evaluations": total.get("obs", 0), "distinct_nontrivial": len(shapes),
-        "rule": "random single-stepped histories on the real store (puts/deletes/batches over a key universe with shared prefixes, rollover+flush, 1..40 compaction steps, trash removal, the real verifier) with up to 3 scan cursors open at once (all nine bound shapes), each driven by short programs of next/prev/seek/seek_to_first/seek_to_last between the store's events, under 5 option sets (4 shaping file sizes with the sst cache off, 1 opening files through a small LRU sst cache with the model's cache switch on); evaluations = cursor observations compared 3-way (real, extracted model, Python reference over the map frozen at scan-open); non-trivial history = some cursor returned an entry after being held across a write, flush, install or clean-up; distinct = distinct op lists",
+        "rule": "random single-stepped histories on the real store (puts/deletes/batches over a key universe with shared prefixes, rollover+flush, 1..40 compaction steps, trash removal, the real verifier) with up to 3 scan cursors open at once (all nine bound shapes), each driven by short programs of next/prev/seek/seek_to_first/seek_to_last between the store's events, under 5 option sets (4 shaping file sizes with the sst cache off, 1 opening files through a small LRU sst cache with the model's cache switch on); every 4th history also opens scans of the tree itself (LsmTree::range_scan; compared with the reference over the flushed contents at open, 2-way; sst/ and trash/ are not compared after such a scan was opened because it holds a version the model does not know), every 4th (another one) places writes inside cursor calls, and 5 (thorough: 40) sweep histories place a write of the key a prev()/next() is stepping onto at every offset 0..59 (in skip list hook events) from the end of the call, each on a fresh scan, with flushes and compactions in between; evaluations = cursor observations compared 3-way (real, extracted model, Python reference over the map frozen at scan-open); non-trivial history = some cursor returned an entry after being held across a write, flush, install or clean-up; distinct = distinct op lists",
         "samples": [ops_to_json(results[-1][2])[:14], ops_to_json(results[ncorpus][2])[:14] if len(results) > ncorpus else []],
         "input_distribution": total, "histories": len(results), "corpus_cases": ncorpus,
         "traces_validated_against_impl": len(results),
@@ -897,7 +1127,7 @@ def run(chk):
         "trusted_base": [
             "Coq 8.16.1 kernel (coqc, full .vo build)",
             "extraction via ExtrOcamlBasic + ocaml/snap/mx_snap.ml",
-            "harness/src/bin/c07.rs, the cfg(blue_verif) hooks of lsmtk (single-step compaction, flush handshake, dump) and of skipfree (node allocation / release / dereference)",
+            "harness/src/bin/c07.rs, the cfg(blue_verif) hooks of lsmtk (single-step compaction, flush handshake, dump, verif_tree) and of skipfree (node allocation / release / dereference; also the place from which a write is put inside a cursor call)",
             "checks/c07.py (lock-step replay, Python reference cursor)",
             "area Cursor (C11) for the combinators, C10 for SstCursor = the table of its entries, C17 for the skiplist itself",
         ],
@@ -926,6 +1156,17 @@ def run(chk):
 def replay(path):
     obj = json.load(open(path))
     print(json.dumps({k: obj[k] for k in obj if k != "history"}, indent=1)[:4000])
+    if "conc2" in obj:
+        chk = vlib.Check("C07", "quick", 1)
+        exe, mx = build(chk)
+        for i in range(10):
+            r = run_conc2((exe, obj["conc2"]["params"], "c07rcc%d" % i))
+            print("attempt %d: %s" % (i, r["line"]))
+            if r["bad"]:
+                print("fails now:", r["what"])
+                return 1
+        print("problems now: []")
+        return 0
     if "conc" in obj:
         chk = vlib.Check("C07", "quick", 1)
         exe, mx = build(chk)
